@@ -200,6 +200,9 @@ func (g *gtrans) execCall(e *genv, call *ast.CallExpr) ([]gres, *lval) {
 		}
 	}
 	for i, a := range outs {
+		if a.idx != "" {
+			g.checkNotParamSlice(call, a.v)
+		}
 		if a.global != nil {
 			g.fail(call, "package-level Element %s passed to %s as a destination", a.gname, key)
 		}
